@@ -193,22 +193,24 @@ class Stream:
             self.source_port = int(kw['SOURCE_ADDR'][last_colon + 1:])
 
         self.state = args[1]
+        # (a stream can first be seen in any state, e.g. when listed
+        # by stream-status, and every status line carries the target)
+        if self.target_host is None and len(args) > 3:
+            last_colon = args[3].rfind(':')
+            self.target_host = args[3][:last_colon]
+            self.target_port = int(args[3][last_colon + 1:])
+            # target_host is often an IP address (newer tors? did
+            # this change?) so we attempt to look it up in our
+            # AddrMap and make it a name no matter what.
+            if self._addrmap:
+                try:
+                    h = self._addrmap.find(self.target_host)
+                    self.target_host = h.name
+                except KeyError:
+                    pass
+
         # XXX why not using the state-machine stuff? ;)
         if self.state in ['NEW', 'NEWRESOLVE', 'SUCCEEDED']:
-            if self.target_host is None:
-                last_colon = args[3].rfind(':')
-                self.target_host = args[3][:last_colon]
-                self.target_port = int(args[3][last_colon + 1:])
-                # target_host is often an IP address (newer tors? did
-                # this change?) so we attempt to look it up in our
-                # AddrMap and make it a name no matter what.
-                if self._addrmap:
-                    try:
-                        h = self._addrmap.find(self.target_host)
-                        self.target_host = h.name
-                    except KeyError:
-                        pass
-
             self.target_port = int(self.target_port)
             if self.state == 'NEW':
                 if self.circuit is not None:
